@@ -205,7 +205,7 @@ def run(ctx):
     rng = ctx.rng
     import os
     os.environ["VERIF_EXTRA_METATYPES"] = C.VERIF + "/data/verif_kinds_metatypes.json"
-    n = 2500 if ctx.tier == "thorough" else 400
+    n = 7500 if ctx.tier == "thorough" else 400
     cases = []
     for i in range(n):
         g = U.Gen(rng, clean=True, p_dyn=rng.choice([0.0, 0.2]))
@@ -261,7 +261,7 @@ def run(ctx):
             ctx.violation(what, dict(rep, impl_output={"faulted": rb["ui"], "fault_free": rg["ui"]}, theorem_or_correspondence="C20_local / S"))
     ctx.coverage["forms_exactly_equal"] = exact
     # ---- K: the preview of faulted documents vs model/Recovery.v (all objects named, binding faults only)
-    kn = 600 if ctx.tier == "thorough" else 120
+    kn = 1500 if ctx.tier == "thorough" else 120
     kroots, kdocs = [], []
     while len(kroots) < kn:
         g = U.Gen(rng, clean=(len(kroots) % 2 == 0), p_bad=0.1)
